@@ -200,6 +200,11 @@ def cases(tier, seed, i, n):
                     calls.insert(2, dict(name='send_text', args=['text ' * 7]))
                     calls.insert(4, dict(name='send_ping', args=[b'pp']))
                     yield dict(kind='hist', mode=mode, mask=None, calls=calls, faults=[['sendall', k, fk]])
+        # (1c) calls made while the loop thread is inflating compressed messages from the server
+        for prog in ('loop-server-ztext-snct+sender-z', 'loop-server-zbfinal+sender-z', 'loop-server-ztext+sender-z'):
+            yield dict(kind='threads', prog=prog, mode='dfs', max_runs=400 if tier == 'quick' else 4000)
+            for r in range(6 if tier == 'quick' else 200):
+                yield dict(kind='threads', prog=prog, rseed=rnd.randrange(1 << 30), count=10, prob=(0.05, 0.15, 0.4)[r % 3])
         # (2) lane sweep: all 256 byte values at every lane offset, every mask
         for mask in MASKS:
             for mode in modes[:2]:
@@ -261,7 +266,42 @@ def cases(tier, seed, i, n):
 
 
 # ------------------------------------------------------------------ execution
+def run_threads(case, acc):
+    """The calls are made while ANOTHER thread - the event loop - is receiving (inflating) compressed messages:
+    every accepted call must still have written one frame that unmasks / inflates to the caller's payload.
+    Runs the C11 programs under the controlled scheduler (random schedules), judged for the round trip only."""
+    from . import c11
+    from .. import sched
+    prog = c11.PROGRAMS[case['prog']]
+    ROUND_TRIP = ('message-missing-or-garbled', 'peer-cannot-inflate-in-wire-order', 'invalid-client-frame',
+                  'wire-not-a-sequence-of-whole-frames', 'unexpected-frame-on-wire', 'message-duplicated')
+
+    def judge(prog_, out):
+        key, detail, sig = c11.judge_c11(prog_, out)
+        acc.count2('oracle', 'scheduled_runs_with_a_receiving_loop')
+        if key is None or key == 'INCONCLUSIVE':
+            return key, detail, sig
+        if key in ROUND_TRIP:
+            return 'payload-does-not-round-trip:call-made-while-the-loop-thread-receives', detail, sig
+        return None, detail, sig       # anything else is C11's / C12's business
+
+    if 'replay' in case and case['replay'].get('plan') is not None:
+        out = c11.execute(prog, plan={int(k): v for k, v in case['replay']['plan'].items()}, files=sched.WRITE_PATH_FILES)
+        c11.account(prog, out, judge, acc, dict(case, pid='C03'), 'dfs', {})
+        return
+    if case.get('mode') == 'dfs':
+        # every schedule with at most one preemption on the write / compression path
+        c11.explore_dfs(prog, 1, judge, acc, dict(case, pid='C03'), case.get('max_runs', 400), 0, 1, files=sched.WRITE_PATH_FILES)
+        return
+    rnd = random.Random(case['rseed'])
+    for _ in range(case['count']):
+        out = c11.execute(prog, rnd=random.Random(rnd.randrange(1 << 30)), switch_prob=case['prob'], files=None)
+        c11.account(prog, out, judge, acc, dict(case, pid='C03'), 'random', None)
+
+
 def run_case(case, acc):
+    if case['kind'] == 'threads':
+        return run_threads(case, acc)
     mode = case['mode']
     z = bool(mode.get('z'))
     hs = dict(extra=[('Sec-WebSocket-Extensions', mode['ext'])]) if z else {}
